@@ -171,6 +171,12 @@ func (v *Validator) Middleware(h http.Handler) http.Handler {
 	})
 }
 
+// isInformational reports whether net/http treats status as an informational
+// response (written out immediately, not the final status).
+func isInformational(status int) bool {
+	return status >= 100 && status <= 199 && status != http.StatusSwitchingProtocols
+}
+
 type responseWrapper interface {
 	http.ResponseWriter
 
@@ -211,6 +217,11 @@ func (wr *warnResponseWrapper) Write(b []byte) (int, error) {
 
 // WriteHeader implements http.ResponseWriter.
 func (wr *warnResponseWrapper) WriteHeader(status int) {
+	if !wr.headerWritten && isInformational(status) {
+		// net/http sends an informational response at once; it does not fix the final status.
+		wr.w.WriteHeader(status)
+		return
+	}
 	if !wr.headerWritten {
 		// If the header hasn't been written, record the status for response
 		// validation.
@@ -263,6 +274,10 @@ func (wr *strictResponseWrapper) Write(b []byte) (int, error) {
 
 // WriteHeader implements http.ResponseWriter.
 func (wr *strictResponseWrapper) WriteHeader(status int) {
+	if !wr.headerWritten && isInformational(status) {
+		// Nothing reaches the client before the response is validated: the hint is dropped.
+		return
+	}
 	if !wr.headerWritten {
 		wr.status = status
 		wr.headerWritten = true
